@@ -17,7 +17,9 @@ META = ("other",
         "left-quote hole and the next right-quote hole is a quote-free literal or Iden::quoted with the same quote; R3 every "
         "identifier - or text cut out of an identifier's name (slices, split_at, traced through locals) - written raw outside "
         "quotes is a reviewed raw-by-contract sink; R4 no impl of Iden overrides prepare/quoted "
-        "and the identifier positions of the renderers reach Iden::prepare (site floor)",
+        "and the identifier positions of the renderers reach Iden::prepare (site floor); R5 the encoded text returned by "
+        "Iden::quoted is written out by the very function that asked for it (or returned by it, and then the same holds for its "
+        "callers): encoded names are never handed on or stored, so nothing is encoded twice",
         "one obligation per structural condition, per quote-delimited region, per raw identifier sink, per Iden impl")
 
 IDEN = "crate::types::Iden"
@@ -331,6 +333,65 @@ def check_impls(run, f, cfg):
     run.floor("C04.R4", "iden-impls", n, {"full": 4, "single": 2}, cfg)
 
 
+def check_quoted_consumed(run, f, cfg):
+    """R5: the text returned by Iden::quoted is already encoded.  Every call of it must be written out by the function that
+    makes the call (as the body between identifier quotes - R2 checks those), or be that function's own return value (the
+    function is then a source of encoded text itself and the rule applies to its callers).  Encoded text that is handed
+    to another function or stored would be encoded a second time, or written without its quotes."""
+    sources = {IDEN + "::quoted"}
+    consumed = set()
+    for name, t, err in T.sink_fns(f):
+        if err is not None:
+            continue
+        for sink in t.sinks:
+            for a in T.atoms(T.project(t.effects, sink)):
+                if a[0] == "hole" and a[1] == "IDEN_QUOTED_BODY" and len(a) > 3:
+                    consumed.add(a[3])
+                if a[0] == "callv" and len(a) > 3:
+                    consumed.add(("callv", a[1], a[3]))
+    n = 0
+    for _round in range(3):
+        grew = False
+        for name, fn in sorted(f.fns.items()):
+            if fn.get("kind") != "fn" or fn.get("hir") is None or "::test" in name or name in sources:
+                continue
+            calls = [c for c in H.calls(fn["hir"]) if (c.get("callee") or "") in sources or (H.callee(c) or "") in sources]
+            if not calls:
+                continue
+            # values the function returns
+            rets = set()
+            try:
+                for p_ in P.fn_paths(fn["hir"]):
+                    v = H.peel_ref(p_.value) if p_.value is not None else None
+                    if isinstance(v, dict):
+                        rets.add(id(v))
+                        if v.get("k") == "local":
+                            for l in walk(fn["hir"]):
+                                if l.get("k") == "stmt_let" and l["pat"].get("k") == "bind" and l["pat"].get("name") == v["name"] and isinstance(l.get("init"), dict):
+                                    rets.add(id(H.peel_ref(l["init"])))
+            except Exception:
+                pass
+            for c in calls:
+                cal = c.get("callee") or ""
+                if c.get("sp") in consumed or ("callv", cal, c.get("sp")) in consumed:
+                    if _round == 0:
+                        n += 1
+                    continue
+                if id(c) in rets:
+                    if name not in sources:
+                        sources.add(name)
+                        grew = True
+                    continue
+                if _round == 2 or not grew:
+                    run.ob("C04.R5", "quoted-escapes:%s" % name, False,
+                           "%s calls %s but neither writes the result out nor returns it: the already-encoded name is handed on (it would be "
+                           "encoded again, or written without its quotes)" % (name.rsplit("::", 1)[-1], cal.rsplit("::", 1)[-1]), sp=c.get("sp"), cfg=cfg)
+        if not grew:
+            break
+    run.ob("C04.R5", "quoted-census", True, "%d calls of Iden::quoted, each written out by the function that makes it" % n, cfg=cfg)
+    run.floor("C04.R5", "quoted-calls", n, 10, cfg)
+
+
 def check(run):
     unq = load_unquoted()
     for cfg in run.tier_configs(["default", "all"], ["mysql", "postgres", "sqlite"]):
@@ -338,6 +399,7 @@ def check(run):
         check_quoted(run, f, cfg)
         check_quotes(run, f, cfg)
         check_regions(run, f, cfg, unq)
+        check_quoted_consumed(run, f, cfg)
         check_impls(run, f, cfg)
     run.trusted.append("specs/lexical.json: identifier quoting rules of MySQL (backtick, doubled), PostgreSQL and SQLite (double quote, doubled)")
     run.assumptions.append("derive-generated Iden impls (fast path in prepare) are decided under C19")
